@@ -20,7 +20,8 @@ type modelState struct {
 	expectPanic      []string
 	observe          []string
 	// digest universe
-	universe []universeEntry
+	universe    []universeEntry
+	fakeDigests int
 	// time
 	lastNow *Term
 	// misc per-path state that models keep; reset at the start of every path
